@@ -118,6 +118,8 @@ def classify(status, err):
         kind = m.group(1)
         if kind == 'SEGV':
             kind = 'SEGV-null' if re.search(r'address 0x0000000000[0-9a-f]{2}\b', e) else 'SEGV'
+        if kind == 'stack-overflow':
+            return 'asan/stack-overflow/deep-recursion'   # the innermost frame of an exhausted stack is arbitrary
         return 'asan/%s/%s' % (kind, cproc_frame(e))
     if status == 1000 + signal.SIGXCPU or status == 1000 + signal.SIGKILL:
         return 'timeout'
